@@ -46,6 +46,7 @@ def generate(seed, run, tier):
     n_epochs = sw.choice([1, 2, 3, 4, 5, 7, 10, 20, 33, 50])
     faults = {k: sw.chance(0.5) for k in ('repeat', 'skip', 'back', 'late_start', 'overshoot')}
     length = sw.randint(3, 14 if tier == 'quick' else 40)
+    p_other_n = sw.choice([0.0, 0.0, 0.2, 0.5])
     case = {'kind': kind, 'names': names, 'mode': mode, 'n_epochs': n_epochs}
     # cost placement relative to target: 'above' | 'at' | 'below'
     # stub: base cost in [1, 1e6], target derived from placement
@@ -78,6 +79,14 @@ def generate(seed, run, tier):
             ops.append({'op': 'bump_check', 'epoch': epoch, 'name': rs.choice(names), 'delta': rs.loguniform(1e-3, 0.5)})
             continue
         ops.append({'op': 'call', 'epoch': epoch})
+        if p_other_n and rs.chance(p_other_n):
+            # the same regularizer object is also called at another schedule position: a logging call with
+            # the documented defaults reg(model) (epoch=1, n_epochs=1), or under another schedule length
+            if rs.chance(0.5):
+                ops.append({'op': 'call', 'default_call': True, 'epoch': 1, 'n': 1})
+            else:
+                ops.append({'op': 'call', 'epoch': rs.choice([epoch, epoch, rs.randint(0, 50)]),
+                            'n': rs.choice([1, 2, 3, 5, 10, 20, 50])})
         # advance the clock, with faults
         r = rs.random()
         if faults['repeat'] and r < 0.25:
@@ -222,12 +231,14 @@ def execute(case):
     def cost_now(n):
         return float(model.get_cost(n).detach())
 
-    def ref_strength(s, e):
-        return min(s / 100.0 + e * (s * 99.0 / 100.0) / (n_ep / 2.0), s)
+    def ref_strength(s, e, n=None):
+        n = n_ep if n is None else n
+        return min(s / 100.0 + e * (s * 99.0 / 100.0) / (n / 2.0), s)
 
-    def do_call(i, epoch, tag):
+    def do_call(i, epoch, tag, n_sched=None, default_call=False):
         """one regularizer call with all per-call oracle clauses; returns value"""
         nonlocal finals, precond, first_call_done, nontrivial
+        n_sched = n_ep if n_sched is None else n_sched
         costs = {n: cost_now(n) for n in names}
         if not first_call_done and case['mode'] == 'derived':
             # reference for the lazily derived strengths: task_loss / (cost - target) at the FIRST call
@@ -244,11 +255,11 @@ def execute(case):
         if case['kind'] == 'stub':
             for n in names:
                 model.c[n].grad = None
-        val = reg(model, epoch, n_ep)
+        val = reg(model) if default_call else reg(model, epoch, n_sched)
         first_call_done = True
         bump('duccio_calls')
         v = float(val.detach())
-        events.append(f'{i} {tag} epoch={epoch}/{n_ep} costs={ {n: round(c, 4) for n, c in costs.items()} } -> {v:.6g}')
+        events.append(f'{i} {tag} epoch={epoch}/{n_sched} costs={ {n: round(c, 4) for n, c in costs.items()} } -> {v:.6g}')
         if not precond:
             return v
         if pending_fault_flag[0]:
@@ -269,10 +280,10 @@ def execute(case):
                  f'epoch={epoch} value={v} excess={excess} finals={finals}')
         bump('calls_all_satisfied' if all_ok else 'calls_with_excess')
         # (c) closed form
-        ref = sum(ref_strength(s, epoch) * excess[n] for n, s in zip(names, finals))
+        ref = sum(ref_strength(s, epoch, n_sched) * excess[nm] for nm, s in zip(names, finals))
         if not _close(v, ref, rtol=2e-4, atol=1e-30):
             fail('DUCCIO value differs from sum_i strength_i(epoch) * max(0, cost_i - target_i)',
-                 'duccio:closed-form', f'epoch={epoch}/{n_ep} value={v} reference={ref} finals={finals} excess={excess}')
+                 'duccio:closed-form', f'epoch={epoch}/{n_sched} value={v} reference={ref} finals={finals} excess={excess}')
         # (d) effective strengths, read as d value / d cost_i (stub) or value/excess (single metric)
         obs = {}
         if case['kind'] == 'stub' and val.requires_grad:
@@ -282,28 +293,28 @@ def execute(case):
                 obs[n] = 0.0 if g is None else float(g)
         elif len(names) == 1 and excess[names[0]] > 0:
             obs[names[0]] = v / excess[names[0]]
-        for n, s in zip(names, finals):
-            if n not in obs:
+        for nm, s in zip(names, finals):
+            if nm not in obs:
                 continue
-            if excess[n] > 0:
-                history.append((i, epoch, n, obs[n], s))
+            if excess[nm] > 0:
+                history.append((i, epoch, nm, obs[nm], s, n_sched))
                 bump('strength_observations')
-                r = ref_strength(s, epoch)
-                if not _close(obs[n], r, rtol=2e-4):
+                r = ref_strength(s, epoch, n_sched)
+                if not _close(obs[nm], r, rtol=2e-4):
                     fail('effective strength differs from min(s/100 + epoch*0.99 s/(n/2), s)',
                          'duccio:strength-closed-form',
-                         f'metric={n} epoch={epoch}/{n_ep} observed={obs[n]} reference={r} final={s}')
-            elif costs[n] < float(targets[n]):
-                if obs[n] != 0.0:
+                         f'metric={nm} epoch={epoch}/{n_sched} observed={obs[nm]} reference={r} final={s}')
+            elif costs[nm] < float(targets[nm]):
+                if obs[nm] != 0.0:
                     fail('a cost below target contributes a gradient', 'duccio:grad-below-target',
-                         f'metric={n} grad={obs[n]}')
+                         f'metric={nm} grad={obs[nm]}')
             else:
                 # exactly at the target the penalty has a kink: any sub-gradient in [0, strength] is
                 # legitimate (torch.maximum returns one half); the statement says nothing about it
                 bump('kink_subgradient_not_checked')
-                if not (0.0 <= obs[n] <= ref_strength(s, epoch) * (1 + 2e-4)):
+                if not (0.0 <= obs[nm] <= ref_strength(s, epoch, n_sched) * (1 + 2e-4)):
                     fail('sub-gradient at the target is outside [0, strength]', 'duccio:grad-at-target',
-                         f'metric={n} grad={obs[n]}')
+                         f'metric={nm} grad={obs[nm]}')
         # (e) lazily derived strengths never change after the first call
         if case['mode'] == 'derived':
             cur = [float(s) for s in reg.final_strengths]
@@ -332,10 +343,15 @@ def execute(case):
             if not first_call_done and op['epoch'] > 0:
                 bump('fault_late_first_call')
                 pending_fault_flag[0] = True
-            if op['epoch'] > n_ep:
+            n_call = op.get('n', n_ep)
+            if op['epoch'] > n_call:
                 bump('fault_epoch_overshoot')
                 pending_fault_flag[0] = True
-            do_call(i, op['epoch'], 'call')
+            if n_call != n_ep or op.get('default_call'):
+                bump('fault_other_schedule_position_on_same_object' +
+                     ('_default_args' if op.get('default_call') else ''))
+                pending_fault_flag[0] = True
+            do_call(i, op['epoch'], 'call', n_sched=n_call, default_call=op.get('default_call', False))
             epochs_seen.add(op['epoch'])
             nx = op.get('next')
             if nx in ('repeat', 'skip', 'back', 'overshoot'):
@@ -377,19 +393,19 @@ def execute(case):
     # ---- history oracle ------------------------------------------------------------------------
     if precond and history:
         by_metric = {}
-        for (i, e, n, s_obs, s_fin) in history:
-            by_metric.setdefault(n, []).append((e, s_obs, s_fin, i))
-        for n, lst in by_metric.items():
+        for (i, e, nm, s_obs, s_fin, n_call) in history:
+            by_metric.setdefault((nm, n_call), []).append((e, s_obs, s_fin, i))
+        for (n, n_ep_h), lst in by_metric.items():
             for (e, s_obs, s_fin, i) in lst:
                 if s_obs > s_fin * (1 + 2e-4):
                     fail('effective strength exceeds the final strength', 'history:above-final',
-                         f'metric={n} epoch={e}/{n_ep} strength={s_obs} final={s_fin}')
+                         f'metric={n} epoch={e}/{n_ep_h} strength={s_obs} final={s_fin}')
                 if e == 0 and not _close(s_obs, s_fin / 100.0, rtol=2e-4):
                     fail('effective strength at epoch 0 is not 1% of the final strength', 'history:start',
                          f'metric={n} strength={s_obs} final={s_fin}')
-                if e >= n_ep / 2.0 and not _close(s_obs, s_fin, rtol=2e-4):
+                if e >= n_ep_h / 2.0 and not _close(s_obs, s_fin, rtol=2e-4):
                     fail('effective strength has not reached the final strength at half the schedule',
-                         'history:half', f'metric={n} epoch={e}/{n_ep} strength={s_obs} final={s_fin}')
+                         'history:half', f'metric={n} epoch={e}/{n_ep_h} strength={s_obs} final={s_fin}')
             srt = sorted(lst)
             for (e1, s1, _, i1), (e2, s2, _, i2) in zip(srt, srt[1:]):
                 bump('history_pairs')
@@ -402,7 +418,7 @@ def execute(case):
     span = (max(epochs_seen) - min(epochs_seen) + 1) if epochs_seen else 0
     shape = json.dumps([case['kind'], len(names), case['mode'], n_ep,
                         [case['metrics'][n]['place'] for n in names],
-                        [[o['op'], o.get('epoch'), o.get('next'), o.get('name'), o.get('factor')] for o in case['ops']]])
+                        [[o['op'], o.get('epoch'), o.get('next'), o.get('name'), o.get('factor'), o.get('n'), o.get('default_call')] for o in case['ops']]])
     return {'failures': failures, 'events': events, 'stats': stats, 'steps': steps,
             'nontrivial': nontrivial and precond,
             'shape': hashlib.sha256(shape.encode()).hexdigest(), 'sim_time': span}
